@@ -63,6 +63,18 @@ def register(R):
     R.contract(KD + "._get_critical_kld", tags=("C09",), modular=True, params={"ref_counts": "List[Nat]", "sample_size": "Int"},
                result="Real", ensures=[], modifies=[], check_invariant=False, assume_invariant=False,
                ghost_update=["self.ghost.boot_n = sample_size"])
+    # C17: a smaller alpha never lowers the critical value.  Two runs of the real function on the same leaf counts and
+    # sample size, differing in self.alpha only; the bootstrap loop is abstracted (its body is not verified here) and shown
+    # not to read alpha (dependency analysis), so both runs collect the same distribution pairs; the tail - the list of
+    # entropies and np.quantile(..., 1 - alpha, method="nearest") - is executed symbolically
+    for nm, cls in (("KdqTreeStreaming_alpha", "KdqTreeStreaming"), ("KdqTreeBatch_alpha", "KdqTreeBatch")):
+        R.relational(nm, function=KD + "._get_critical_kld", on_self=cls, tags=("C17",), vary=["alpha"],
+                     requires=["same_except(self1, self2, 'alpha')", "0 < self1.alpha and self1.alpha <= self2.alpha and self2.alpha < 1"],
+                     ensures=["result1 >= result2", "same_except(self1, self2, 'alpha')"],
+                     calls={"pandas.DataFrame": "any", "menelaus.partitioners.KDQTreePartitioner:KDQTreePartitioner._distn_from_counts": "any"},
+                     loops={KD + "._get_critical_kld": {0: {"abstract": True, "independent": True, "index": "k0",
+                                                          "havoc_locals": ["b_dist_pairs", "b_sample", "b_hist1", "b_hist2"],
+                                                          "types": {"b_dist_pairs": "AnyList"}, "invariant": []}}})
     # _inner_set_reference is inherited by both detectors; its effect is stated per receiver class (counter names
     # differ) and VERIFIED per receiver class below (targets KS/KB + "._inner_set_reference"); call sites use this entry.
     R.contract(KD + "._inner_set_reference", modular=True, verified_by=[KS + "._inner_set_reference", KB + "._inner_set_reference"],
